@@ -1,21 +1,60 @@
-lib/Bytes.vo lib/Bytes.glob lib/Bytes.v.beautified lib/Bytes.required_vo: lib/Bytes.v 
-lib/Bytes.vio: lib/Bytes.v 
-lib/Bytes.vos lib/Bytes.vok lib/Bytes.required_vos: lib/Bytes.v 
-lib/Utf8.vo lib/Utf8.glob lib/Utf8.v.beautified lib/Utf8.required_vo: lib/Utf8.v lib/Bytes.vo
-lib/Utf8.vio: lib/Utf8.v lib/Bytes.vio
-lib/Utf8.vos lib/Utf8.vok lib/Utf8.required_vos: lib/Utf8.v lib/Bytes.vos
+gen/Facts_Ast.vo gen/Facts_Ast.glob gen/Facts_Ast.v.beautified gen/Facts_Ast.required_vo: gen/Facts_Ast.v lib/AstSchema.vo
+gen/Facts_Ast.vio: gen/Facts_Ast.v lib/AstSchema.vio
+gen/Facts_Ast.vos gen/Facts_Ast.vok gen/Facts_Ast.required_vos: gen/Facts_Ast.v lib/AstSchema.vos
+gen/Facts_AstOps.vo gen/Facts_AstOps.glob gen/Facts_AstOps.v.beautified gen/Facts_AstOps.required_vo: gen/Facts_AstOps.v 
+gen/Facts_AstOps.vio: gen/Facts_AstOps.v 
+gen/Facts_AstOps.vos gen/Facts_AstOps.vok gen/Facts_AstOps.required_vos: gen/Facts_AstOps.v 
 gen/Facts_HTMLEscape.vo gen/Facts_HTMLEscape.glob gen/Facts_HTMLEscape.v.beautified gen/Facts_HTMLEscape.required_vo: gen/Facts_HTMLEscape.v 
 gen/Facts_HTMLEscape.vio: gen/Facts_HTMLEscape.v 
 gen/Facts_HTMLEscape.vos gen/Facts_HTMLEscape.vok gen/Facts_HTMLEscape.required_vos: gen/Facts_HTMLEscape.v 
 gen/Facts_escapers.vo gen/Facts_escapers.glob gen/Facts_escapers.v.beautified gen/Facts_escapers.required_vo: gen/Facts_escapers.v 
 gen/Facts_escapers.vio: gen/Facts_escapers.v 
 gen/Facts_escapers.vos gen/Facts_escapers.vok gen/Facts_escapers.required_vos: gen/Facts_escapers.v 
+lib/AstSchema.vo lib/AstSchema.glob lib/AstSchema.v.beautified lib/AstSchema.required_vo: lib/AstSchema.v 
+lib/AstSchema.vio: lib/AstSchema.v 
+lib/AstSchema.vos lib/AstSchema.vok lib/AstSchema.required_vos: lib/AstSchema.v 
+lib/Bytes.vo lib/Bytes.glob lib/Bytes.v.beautified lib/Bytes.required_vo: lib/Bytes.v 
+lib/Bytes.vio: lib/Bytes.v 
+lib/Bytes.vos lib/Bytes.vok lib/Bytes.required_vos: lib/Bytes.v 
+lib/Utf8.vo lib/Utf8.glob lib/Utf8.v.beautified lib/Utf8.required_vo: lib/Utf8.v lib/Bytes.vo
+lib/Utf8.vio: lib/Utf8.v lib/Bytes.vio
+lib/Utf8.vos lib/Utf8.vok lib/Utf8.required_vos: lib/Utf8.v lib/Bytes.vos
+model/AstTreeInst.vo model/AstTreeInst.glob model/AstTreeInst.v.beautified model/AstTreeInst.required_vo: model/AstTreeInst.v lib/Bytes.vo lib/AstSchema.vo gen/Facts_Ast.vo model/AstTreeM.vo model/AstTreeSpec.vo
+model/AstTreeInst.vio: model/AstTreeInst.v lib/Bytes.vio lib/AstSchema.vio gen/Facts_Ast.vio model/AstTreeM.vio model/AstTreeSpec.vio
+model/AstTreeInst.vos model/AstTreeInst.vok model/AstTreeInst.required_vos: model/AstTreeInst.v lib/Bytes.vos lib/AstSchema.vos gen/Facts_Ast.vos model/AstTreeM.vos model/AstTreeSpec.vos
+model/AstTreeM.vo model/AstTreeM.glob model/AstTreeM.v.beautified model/AstTreeM.required_vo: model/AstTreeM.v lib/Bytes.vo lib/AstSchema.vo gen/Facts_Ast.vo
+model/AstTreeM.vio: model/AstTreeM.v lib/Bytes.vio lib/AstSchema.vio gen/Facts_Ast.vio
+model/AstTreeM.vos model/AstTreeM.vok model/AstTreeM.required_vos: model/AstTreeM.v lib/Bytes.vos lib/AstSchema.vos gen/Facts_Ast.vos
+model/AstTreeSpec.vo model/AstTreeSpec.glob model/AstTreeSpec.v.beautified model/AstTreeSpec.required_vo: model/AstTreeSpec.v lib/Bytes.vo lib/AstSchema.vo model/AstTreeM.vo
+model/AstTreeSpec.vio: model/AstTreeSpec.v lib/Bytes.vio lib/AstSchema.vio model/AstTreeM.vio
+model/AstTreeSpec.vos model/AstTreeSpec.vok model/AstTreeSpec.required_vos: model/AstTreeSpec.v lib/Bytes.vos lib/AstSchema.vos model/AstTreeM.vos
+model/ExprPrintParseInst.vo model/ExprPrintParseInst.glob model/ExprPrintParseInst.v.beautified model/ExprPrintParseInst.required_vo: model/ExprPrintParseInst.v lib/Bytes.vo gen/Facts_AstOps.vo model/ExprPrintParseM.vo
+model/ExprPrintParseInst.vio: model/ExprPrintParseInst.v lib/Bytes.vio gen/Facts_AstOps.vio model/ExprPrintParseM.vio
+model/ExprPrintParseInst.vos model/ExprPrintParseInst.vok model/ExprPrintParseInst.required_vos: model/ExprPrintParseInst.v lib/Bytes.vos gen/Facts_AstOps.vos model/ExprPrintParseM.vos
+model/ExprPrintParseM.vo model/ExprPrintParseM.glob model/ExprPrintParseM.v.beautified model/ExprPrintParseM.required_vo: model/ExprPrintParseM.v lib/Bytes.vo
+model/ExprPrintParseM.vio: model/ExprPrintParseM.v lib/Bytes.vio
+model/ExprPrintParseM.vos model/ExprPrintParseM.vok model/ExprPrintParseM.required_vos: model/ExprPrintParseM.v lib/Bytes.vos
 model/HTMLEscapeM.vo model/HTMLEscapeM.glob model/HTMLEscapeM.v.beautified model/HTMLEscapeM.required_vo: model/HTMLEscapeM.v lib/Bytes.vo gen/Facts_HTMLEscape.vo
 model/HTMLEscapeM.vio: model/HTMLEscapeM.v lib/Bytes.vio gen/Facts_HTMLEscape.vio
 model/HTMLEscapeM.vos model/HTMLEscapeM.vok model/HTMLEscapeM.required_vos: model/HTMLEscapeM.v lib/Bytes.vos gen/Facts_HTMLEscape.vos
 model/HtmlDecode.vo model/HtmlDecode.glob model/HtmlDecode.v.beautified model/HtmlDecode.required_vo: model/HtmlDecode.v lib/Bytes.vo lib/Utf8.vo
 model/HtmlDecode.vio: model/HtmlDecode.v lib/Bytes.vio lib/Utf8.vio
 model/HtmlDecode.vos model/HtmlDecode.vok model/HtmlDecode.required_vos: model/HtmlDecode.v lib/Bytes.vos lib/Utf8.vos
+proofs/AstTree_base.vo proofs/AstTree_base.glob proofs/AstTree_base.v.beautified proofs/AstTree_base.required_vo: proofs/AstTree_base.v lib/Bytes.vo lib/AstSchema.vo model/AstTreeM.vo model/AstTreeSpec.vo
+proofs/AstTree_base.vio: proofs/AstTree_base.v lib/Bytes.vio lib/AstSchema.vio model/AstTreeM.vio model/AstTreeSpec.vio
+proofs/AstTree_base.vos proofs/AstTree_base.vok proofs/AstTree_base.required_vos: proofs/AstTree_base.v lib/Bytes.vos lib/AstSchema.vos model/AstTreeM.vos model/AstTreeSpec.vos
+proofs/AstTree_clone.vo proofs/AstTree_clone.glob proofs/AstTree_clone.v.beautified proofs/AstTree_clone.required_vo: proofs/AstTree_clone.v lib/Bytes.vo lib/AstSchema.vo model/AstTreeM.vo model/AstTreeSpec.vo proofs/AstTree_base.vo
+proofs/AstTree_clone.vio: proofs/AstTree_clone.v lib/Bytes.vio lib/AstSchema.vio model/AstTreeM.vio model/AstTreeSpec.vio proofs/AstTree_base.vio
+proofs/AstTree_clone.vos proofs/AstTree_clone.vok proofs/AstTree_clone.required_vos: proofs/AstTree_clone.v lib/Bytes.vos lib/AstSchema.vos model/AstTreeM.vos model/AstTreeSpec.vos proofs/AstTree_base.vos
+proofs/AstTree_inst_proofs.vo proofs/AstTree_inst_proofs.glob proofs/AstTree_inst_proofs.v.beautified proofs/AstTree_inst_proofs.required_vo: proofs/AstTree_inst_proofs.v lib/Bytes.vo lib/AstSchema.vo gen/Facts_Ast.vo model/AstTreeM.vo model/AstTreeSpec.vo model/AstTreeInst.vo proofs/AstTree_base.vo proofs/AstTree_clone.vo proofs/AstTree_walk.vo
+proofs/AstTree_inst_proofs.vio: proofs/AstTree_inst_proofs.v lib/Bytes.vio lib/AstSchema.vio gen/Facts_Ast.vio model/AstTreeM.vio model/AstTreeSpec.vio model/AstTreeInst.vio proofs/AstTree_base.vio proofs/AstTree_clone.vio proofs/AstTree_walk.vio
+proofs/AstTree_inst_proofs.vos proofs/AstTree_inst_proofs.vok proofs/AstTree_inst_proofs.required_vos: proofs/AstTree_inst_proofs.v lib/Bytes.vos lib/AstSchema.vos gen/Facts_Ast.vos model/AstTreeM.vos model/AstTreeSpec.vos model/AstTreeInst.vos proofs/AstTree_base.vos proofs/AstTree_clone.vos proofs/AstTree_walk.vos
+proofs/AstTree_walk.vo proofs/AstTree_walk.glob proofs/AstTree_walk.v.beautified proofs/AstTree_walk.required_vo: proofs/AstTree_walk.v lib/Bytes.vo lib/AstSchema.vo model/AstTreeM.vo model/AstTreeSpec.vo proofs/AstTree_base.vo proofs/AstTree_clone.vo
+proofs/AstTree_walk.vio: proofs/AstTree_walk.v lib/Bytes.vio lib/AstSchema.vio model/AstTreeM.vio model/AstTreeSpec.vio proofs/AstTree_base.vio proofs/AstTree_clone.vio
+proofs/AstTree_walk.vos proofs/AstTree_walk.vok proofs/AstTree_walk.required_vos: proofs/AstTree_walk.v lib/Bytes.vos lib/AstSchema.vos model/AstTreeM.vos model/AstTreeSpec.vos proofs/AstTree_base.vos proofs/AstTree_clone.vos
+proofs/ExprPrintParse_proofs.vo proofs/ExprPrintParse_proofs.glob proofs/ExprPrintParse_proofs.v.beautified proofs/ExprPrintParse_proofs.required_vo: proofs/ExprPrintParse_proofs.v lib/Bytes.vo model/ExprPrintParseM.vo proofs/AstTree_base.vo
+proofs/ExprPrintParse_proofs.vio: proofs/ExprPrintParse_proofs.v lib/Bytes.vio model/ExprPrintParseM.vio proofs/AstTree_base.vio
+proofs/ExprPrintParse_proofs.vos proofs/ExprPrintParse_proofs.vok proofs/ExprPrintParse_proofs.required_vos: proofs/ExprPrintParse_proofs.v lib/Bytes.vos model/ExprPrintParseM.vos proofs/AstTree_base.vos
 proofs/HTMLEscape_proofs.vo proofs/HTMLEscape_proofs.glob proofs/HTMLEscape_proofs.v.beautified proofs/HTMLEscape_proofs.required_vo: proofs/HTMLEscape_proofs.v lib/Bytes.vo gen/Facts_HTMLEscape.vo model/HTMLEscapeM.vo lib/Utf8.vo model/HtmlDecode.vo proofs/HtmlDecode_proofs.vo
 proofs/HTMLEscape_proofs.vio: proofs/HTMLEscape_proofs.v lib/Bytes.vio gen/Facts_HTMLEscape.vio model/HTMLEscapeM.vio lib/Utf8.vio model/HtmlDecode.vio proofs/HtmlDecode_proofs.vio
 proofs/HTMLEscape_proofs.vos proofs/HTMLEscape_proofs.vok proofs/HTMLEscape_proofs.required_vos: proofs/HTMLEscape_proofs.v lib/Bytes.vos gen/Facts_HTMLEscape.vos model/HTMLEscapeM.vos lib/Utf8.vos model/HtmlDecode.vos proofs/HtmlDecode_proofs.vos
@@ -25,3 +64,9 @@ proofs/HtmlDecode_proofs.vos proofs/HtmlDecode_proofs.vok proofs/HtmlDecode_proo
 props/C24.vo props/C24.glob props/C24.v.beautified props/C24.required_vo: props/C24.v lib/Bytes.vo gen/Facts_HTMLEscape.vo model/HTMLEscapeM.vo model/HtmlDecode.vo proofs/HTMLEscape_proofs.vo
 props/C24.vio: props/C24.v lib/Bytes.vio gen/Facts_HTMLEscape.vio model/HTMLEscapeM.vio model/HtmlDecode.vio proofs/HTMLEscape_proofs.vio
 props/C24.vos props/C24.vok props/C24.required_vos: props/C24.v lib/Bytes.vos gen/Facts_HTMLEscape.vos model/HTMLEscapeM.vos model/HtmlDecode.vos proofs/HTMLEscape_proofs.vos
+props/C27.vo props/C27.glob props/C27.v.beautified props/C27.required_vo: props/C27.v lib/Bytes.vo gen/Facts_AstOps.vo model/ExprPrintParseM.vo model/ExprPrintParseInst.vo proofs/ExprPrintParse_proofs.vo
+props/C27.vio: props/C27.v lib/Bytes.vio gen/Facts_AstOps.vio model/ExprPrintParseM.vio model/ExprPrintParseInst.vio proofs/ExprPrintParse_proofs.vio
+props/C27.vos props/C27.vok props/C27.required_vos: props/C27.v lib/Bytes.vos gen/Facts_AstOps.vos model/ExprPrintParseM.vos model/ExprPrintParseInst.vos proofs/ExprPrintParse_proofs.vos
+props/C28.vo props/C28.glob props/C28.v.beautified props/C28.required_vo: props/C28.v lib/Bytes.vo lib/AstSchema.vo gen/Facts_Ast.vo model/AstTreeM.vo model/AstTreeSpec.vo model/AstTreeInst.vo proofs/AstTree_inst_proofs.vo
+props/C28.vio: props/C28.v lib/Bytes.vio lib/AstSchema.vio gen/Facts_Ast.vio model/AstTreeM.vio model/AstTreeSpec.vio model/AstTreeInst.vio proofs/AstTree_inst_proofs.vio
+props/C28.vos props/C28.vok props/C28.required_vos: props/C28.v lib/Bytes.vos lib/AstSchema.vos gen/Facts_Ast.vos model/AstTreeM.vos model/AstTreeSpec.vos model/AstTreeInst.vos proofs/AstTree_inst_proofs.vos
